@@ -296,7 +296,12 @@ def finish(mod, tier, seed, tasks, results, t0, only_partial=False):
     print('HARNESS-ERROR property=%s (%d task(s) failed inside the harness)' %
           (pid, len(harness_errors)))
     print(harness_errors[0])
-    return 2
+    if not tot.violations:
+      return 2
+    # other tasks did find violations: report them (the failed tasks are not counted as
+    # covered), never hide them behind the infrastructure problem
+    tot.notes.append('%d task(s) failed inside the harness: %s' %
+                     (len(harness_errors), harness_errors[0][-300:]))
 
   # Known findings
   kf = [k for k in load_known_findings() if k['property'] == pid]
